@@ -289,6 +289,10 @@ def generate(tier, seed):
             for where in (("anchors", "comparisons", "pdist") if thorough else ("anchors", "pdist") if bad != "list" else ("comparisons",)):
                 yield "reject", {"cls": cls, "bad": bad, "where": where}, True
     for cls in CLASSES:
+        for trip in ((2, 1, 1), (1, 2, 1), (1, 1, 2)):         # neighbours of the unit-weight shortcut
+            yield "metric", {"cls": cls, "w": {"insertion_weight": trip[0], "deletion_weight": trip[1], "substitution_weight": trip[2]},
+                             "anchors": WIT[:4], "comps": WIT[1:]}, True
+    for cls in CLASSES:
         big = {k: v for k, v in {"insertion_weight": 3, "deletion_weight": 5, "substitution_weight": 7, "alpha_weight": 100, "beta_weight": 90,
                                  "cdr1_weight": 60, "cdr2_weight": 80, "cdr3_weight": 100}.items() if k in ACCEPTS[cls]}
         yield "metric", {"cls": cls, "w": big, "anchors": WIT, "comps": WIT[:3]}, True          # entries beyond 65535
